@@ -382,7 +382,7 @@ func taskKind(t *ConcTask) string {
 // the cases one at a time, so that a race report can be attributed to the case
 // that was running.
 func raceHalf(tier string, seed uint64, cov map[string]any) (int, []string) {
-	bin := filepath.Join(sim.VerifDir(), "bin", "verif-race")
+	bin := filepath.Join(sim.BinDir(), "verif-race")
 	if _, err := os.Stat(bin); err != nil {
 		cov["race_detector_half"] = "not run: bin/verif-race missing"
 		return 2, []string{"INFRA: bin/verif-race missing (the check script builds it)"}
